@@ -350,6 +350,25 @@ pub fn c13_cases(quick: bool) -> Vec<SCase> {
             }
         }
     }
+    // arms whose body is, or contains, the static `false`: under match / matche the arm simply has
+    // no answers, under matcha / matchu a matching arm still commits (and suppresses later arms)
+    {
+        let subj_terms: Vec<T> = vec![T::Nil, T::list(vec![T::I(7)]), T::I(1), T::list(vec![T::I(1), T::I(2)])];
+        let first_pats: Vec<Vec<T>> = vec![vec![T::Nil], vec![T::I(1), T::list(vec![T::W, T::W])], vec![T::cons(q(), T::W)]];
+        let bodies: Vec<Vec<G>> = vec![vec![G::Fail], vec![G::Eq(r(), T::I(5)), G::Fail], vec![G::Conj(vec![G::Fail, G::Eq(r(), T::I(5))])], vec![G::Succeed]];
+        for st in &subj_terms {
+            for fp in &first_pats {
+                for b in &bodies {
+                    for kind in kinds {
+                        let arms = vec![(fp.clone(), b.clone()), (vec![T::W], vec![G::Eq(r(), T::I(0))])];
+                        out.push(SCase { program: Program { nq: 2, body: vec![G::Match(kind, st.clone(), arms)] }, as_query: false, take: 50, ordered: false, twin_of: None });
+                        let arms3 = vec![(vec![T::I(9)], vec![G::Eq(r(), T::I(9))]), (fp.clone(), b.clone()), (vec![T::W], vec![G::Eq(r(), T::I(0))])];
+                        out.push(SCase { program: Program { nq: 2, body: vec![G::Match(kind, st.clone(), arms3)] }, as_query: false, take: 50, ordered: false, twin_of: None });
+                    }
+                }
+            }
+        }
+    }
     // two or three arms with alternatives: all four kinds on the same arms
     let list_pats: Vec<T> = pats.iter().filter(|p| !compound_pat(p)).cloned().collect();
     let n = list_pats.len();
@@ -618,6 +637,11 @@ pub fn c15_cases(quick: bool) -> Vec<SCase> {
         base.push(vec![G::Match(kind, q(), vec![(vec![T::cons(T::W, q())], vec![G::Eq(r(), q())]), (vec![T::W], vec![G::Eq(r(), T::I(0))])]), G::Eq(q(), T::list(vec![T::I(1), T::I(2)]))]);
         base.push(vec![G::Eq(q(), T::list(vec![T::I(1), T::list(vec![T::I(2)])])), G::Match(kind, q(), vec![(vec![T::list(vec![T::W, q()])], vec![G::Match(kind, q(), vec![(vec![T::list(vec![q()])], vec![G::Eq(r(), q())])])])])]);
     }
+    // one goal VALUE solved twice on the same path: its fresh variables are new each time
+    base.push(vec![G::Call("twiceo".into(), vec![q(), r()])]);
+    base.push(vec![G::Call("cello".into(), vec![q(), r()]), G::Call("cello".into(), vec![q(), r()])]);
+    base.push(vec![G::Fresh(vec![2], vec![G::Call("twiceo".into(), vec![x.clone(), r()]), G::Eq(q(), T::list(vec![x.clone(), r()]))])]);
+    base.push(vec![G::Conde(vec![vec![G::Call("twiceo".into(), vec![q(), r()])], vec![G::Call("twiceo".into(), vec![r(), q()])]])]);
     // recursion: every unfolding introduces variables with the same names
     for l in [T::list(vec![T::I(1), T::I(2), T::I(3)]), T::list(vec![T::I(1), q()]), T::list(vec![q(), T::I(2), q()])] {
         base.push(vec![G::Call("zipo".into(), vec![l.clone(), r()])]);
